@@ -29,10 +29,27 @@ TEXT = {
           "same account and height, restarts, overlaps) with byte-exact state comparison, by feeding the real redo patches "
           "through the model, and by a deep scenario: a chain longer than the near-cache window (360), historical views near "
           "and far materialised before the head momentum is replaced by a delivered branch, every view compared warm, after "
-          "restart and on a node that only saw the final chain.",
+          "restart and on a node that only saw the final chain. Node level (Props/C02Node.lean): a model of the node — "
+          "chain, pool of executed blocks, gossip under the priority rule, delivery that reuses a pooled patch or executes "
+          "in the context the block states and force-inserts, changes-hash comparison, restart — with the VM as an arbitrary "
+          "function parameter; kernel-checked: in every reachable state every pooled and every confirmed patch is the VM's "
+          "value on (ledger as of the acknowledged momentum, account chain up to the stated previous, block) "
+          "(pool_patches_sound, confirmed_patches_sound); any two operation sequences — any interleaving of gossip of "
+          "arbitrary blocks, batch boundaries, refused deliveries, restarts — that end with the same accepted momentum "
+          "sequence end with the same stored history and ledger (ledger_schedule_independent); a momentum produced on a "
+          "reachable node is accepted by every reachable node holding the same chain whatever its pool holds "
+          "(honest_momentum_accepted); with an injective changes hash the sequence pins the ledger even between different "
+          "VMs (ledger_pinned_by_changes_hash); negative witnesses for executing on the pool frontier and for delivery "
+          "without force. Tied to the code by AST facts (context = store of the acknowledged momentum + account store at "
+          "Previous(); InsertChain: pooled patch or execute + ForceAdd; AddAccountBlocks: plain add) and by replaying the "
+          "abstract trace of every follower of the sync stream on the model (every gossip / delivery verdict, the pool "
+          "content after each, equal final ledgers).",
   "design_ref": "§3 C02",
-  "note": "Hash functions are parameters; determinism of the Go VM itself is correspondence (multi-node) + AST fact.",
-  "technique": "Lean 4 refinement corollaries + regenerated AST fact + multi-node differential replay",
+  "note": "Hash functions are parameters; determinism of the Go VM itself is correspondence (multi-node) + AST fact: in the "
+          "node-level model the VM is a parameter, and schedule independence GIVEN a deterministic VM is a theorem. "
+          "Rollback / side chains are outside the node-level model (C06, C16).",
+  "technique": "Lean 4 refinement corollaries + node-level state-machine invariant and schedule-independence proof + "
+               "regenerated AST facts + multi-node differential replay",
  },
  "C08": {
   "text": "Kernel-checked: the write plan of a commit / rollback is ONE leveldb batch whose effect is exactly the manager "
